@@ -114,7 +114,7 @@ def numberShorthandAdmits (n : Nat) : Bool :=
   | some ws => ws.contains n
 
 /-- **`to_str` on a typed number**: for every type of the generated shorthand table and every value, the model prints
-    the shorthand exactly when the guard found in the source admits the length of the value (today: no guard), and
+    the shorthand exactly when the guard found in the source admits the length of the value (1, 2, 4 or 8 bytes), and
     the generic `<type>=<escaped value>` form otherwise -/
 theorem toStr_number_guard (t : Nat) (v : Bytes) (s : Str) (ht : t < 2^64) (hv : v.length < 2^64)
     (hs : altUriOfType t = some s) :
@@ -128,7 +128,16 @@ theorem toStr_number_guard (t : Nat) (v : Bytes) (s : Str) (ht : t < 2^64) (hv :
   have h1 : t ≠ 1 := by rcases hn with h | h | h | h | h <;> omega
   have h2 : t ≠ 2 := by rcases hn with h | h | h | h | h <;> omega
   rw [toStr_tlv t v ht hv]
-  simp [h1, h2, hs, numberShorthandAdmits, Gen.C09.toStrNumberWidths]
+  simp only [h1, h2, if_false, hs]
+  by_cases hw : (v.length = 1 ∨ v.length = 2 ∨ v.length = 4 ∨ v.length = 8)
+  · have ha : numberShorthandAdmits v.length = true := by
+      rcases hw with h | h | h | h <;> simp [numberShorthandAdmits, Gen.C09.toStrNumberWidths, h]
+    simp only [if_pos hw, ha, if_true]
+  · have ha : numberShorthandAdmits v.length = false := by
+      simp only [numberShorthandAdmits, Gen.C09.toStrNumberWidths]
+      simp only [List.contains_cons, List.contains_nil, Bool.or_false, Bool.or_eq_false_iff, beq_eq_false_iff_ne]
+      omega
+    simp only [if_neg hw, ha, Bool.false_eq_true, if_false]
 
 private theorem escaping_fin : ∀ n : Fin 256,
     escByte (UInt8.ofNat n.val) =
